@@ -847,7 +847,7 @@ pub fn gen_frame_stream(t: &mut Tape, o: &FrameOpts) -> (Stream, Vec<String>) {
                 _ => t.below(o.max_payload + 1),
             }
             .min(o.max_payload);
-            p.raw = Some(t.bytes(len));
+            p.raw = Some(if len <= 32 { t.bytes(len) } else { t.bytes_cheap(len) });
         }
         p.fix_sizes();
         packets.push(p);
